@@ -51,8 +51,12 @@ impl NsCase {
                 }
                 _ => vec![],
             };
+            // ... and a record query by its twin: the same tag names with one marker / non-marker flipped (whatever is
+            // remembered per *set of names* instead of per record answers one of the two wrongly)
+            let rec_twin = super::c14::twin(&q);
             out.push(q);
             out.extend(twins);
+            out.extend(rec_twin);
         }
         out
     }
